@@ -2,6 +2,8 @@ package main
 
 import (
 	"fmt"
+	"go/token"
+	"regexp"
 	"sort"
 	"strings"
 )
@@ -20,6 +22,14 @@ func r5sibCtxUnifyObligations(c *Ctx) []Obligation {
 	e := r2sibEngineOf(c)
 	p := c.Pkg("homescript/analyzer")
 	var out []Obligation
+	// sibling agreement of the looked-up context types: (lookup of the offered value, lookup of the expected object) → uses
+	type r6use struct {
+		fn, field, pos string
+		at             token.Pos
+	}
+	siblings := map[string][]r6use{}
+	lookupRe := regexp.MustCompile(`\.(\w+)\([^#]*\)#0`)
+	fieldRe := regexp.MustCompile(`#0\.(\w+)`)
 	for _, fd := range AllFuncDecls(p) {
 		if fd.Body == nil {
 			continue
@@ -41,6 +51,10 @@ func r5sibCtxUnifyObligations(c *Ctx) []Obligation {
 			exp := ev.Attrs["exp"]
 			if !strings.HasPrefix(exp, "self.") || strings.Contains(exp, "desc[") {
 				continue
+			}
+			if gm, em, fm := lookupRe.FindStringSubmatch(strings.TrimPrefix(ev.Key, "TypeCheck(got=")), lookupRe.FindStringSubmatch(exp), fieldRe.FindStringSubmatch(exp); gm != nil && em != nil && fm != nil && strings.HasPrefix(strings.TrimPrefix(ev.Key, "TypeCheck(got="), "self.") {
+				gk := gm[1] + " against " + em[1]
+				siblings[gk] = append(siblings[gk], r6use{FuncName(fd), fm[1], c.Pos(ev.Pos), ev.Pos})
 			}
 			// the context object, without the adapters applied to it: self.a.b(...)#0.Field
 			root := exp
@@ -143,6 +157,40 @@ func r5sibCtxUnifyObligations(c *Ctx) []Obligation {
 				ob.Detail = fmt.Sprintf("the construct must fit %s, a type its context declares, but on the paths where %s neither a TypeCheck against it is passed nor an error reported: the construct is accepted unchecked (TypeCheck at %s)", f.pretty(exp), f.pretty(strings.Join(bad, " | ")), c.Pos(byExp[exp][0].Pos))
 			} else {
 				ob.Detail = fmt.Sprintf("every path passes TypeCheck(…, %s) (%s) or reports one of the %d errors / panics of the function", f.pretty(exp), c.Pos(byExp[exp][0].Pos), nErr)
+			}
+			out = append(out, ob)
+		}
+	}
+	// the siblings that check the same kind of looked-up value against the same kind of looked-up object take the
+	// expected type from the same field of that object (a callback attached by a trigger statement or by a function
+	// annotation is checked against the trigger's CallbackFnType both times)
+	var gks []string
+	for gk := range siblings {
+		gks = append(gks, gk)
+	}
+	sort.Strings(gks)
+	for _, gk := range gks {
+		us := siblings[gk]
+		if len(us) < 2 {
+			continue
+		}
+		count := map[string]int{}
+		for _, u := range us {
+			count[u.field]++
+		}
+		for _, u := range us {
+			ob := Obligation{Key: fmt.Sprintf("homescript/analyzer.%s|%s|same field as the sibling checks", u.fn, gk), Pos: c.Pos(u.at), Nontrivial: true}
+			if len(count) > 1 && count[u.field]*2 <= len(us) {
+				var others []string
+				for _, o := range us {
+					if o.field != u.field {
+						others = append(others, fmt.Sprintf("%s uses %s (%s)", o.fn, o.field, o.pos))
+					}
+				}
+				ob.Status = Violated
+				ob.Detail = fmt.Sprintf("%s checks the value looked up by %s against field %s of the looked-up object, but %s: the two ways to attach the same thing are checked against different types", u.fn, strings.Split(gk, " ")[0], u.field, strings.Join(others, "; "))
+			} else {
+				ob.Detail = fmt.Sprintf("expected type taken from field %s, like %d of %d sibling checks", u.field, count[u.field], len(us))
 			}
 			out = append(out, ob)
 		}
